@@ -70,7 +70,10 @@ func c08Exec(c c08Case, st *lab.Stats) *lab.Fail {
 	// a socket the server forgot to close would be closed by the garbage
 	// collector's finalizer sooner or later: keep the collector out of the
 	// way until the descriptor census at the end has been taken
-	defer func(old int) { debug.SetGCPercent(old); runtime.GC() }(debug.SetGCPercent(-1))
+	// ... but with a ceiling: gldap/asn1-ber allocate about ten times the bytes they encode, and handlers writing
+	// megabytes on dozens of connections would otherwise pile up gigabytes per process. With the percentage off
+	// the collector only runs when the heap approaches the limit, i.e. never in the ordinary (small) scenarios.
+	defer func(old int, lim int64) { debug.SetGCPercent(old); debug.SetMemoryLimit(lim); runtime.GC() }(debug.SetGCPercent(-1), debug.SetMemoryLimit(768<<20))
 	var mu sync.Mutex
 	connIDOfTag := map[int]int{}
 	idMismatch := ""
@@ -356,7 +359,7 @@ func c08Exec(c c08Case, st *lab.Stats) *lab.Fail {
 				_ = cl.Send(ReqSpec{Req: wire.Req{Kind: "raw", MsgID: base + 96, RawTag: wire.AppCompareRequest, RawConstructed: true,
 					RawContent: append(wire.Str("cn=x").Bytes(), wire.Seq(wire.Str("cn"), wire.Str("x")).Bytes()...)}}.Bytes())
 			}
-			_, how, seq := readUntilClosed(cl, 20*time.Second)
+			how, seq := drainUntilClosed(cl, 20*time.Second)
 			ends[tag] = endInfo{how, seq}
 		}(tag, cs)
 	}
